@@ -5,7 +5,7 @@
    of the real contents and eager arrays, and real raw-data samples of every fixture branch. *)
 From Coq Require Import String ZArith Lia Bool List.
 Import ListNotations.
-From PV.Model Require Import AwkList LazyForm.
+From PV.Model Require Import AwkList LazyForm BasketRead.
 From PV.Gen Require Import C18Trees.
 From PV.Props Require Import C18Proofs.
 Local Open Scope Z_scope.
@@ -98,6 +98,15 @@ Proof.
   constructor.
 Qed.
 Print Assumptions C18_fixture_announcements.
+
+(* the CGEM cluster collection (no form, hence not lazy-capable): the real content form on the fixtures is the record WITH
+   m_recPositionY that C02's reader model (PV.Model.BasketRead.cg_form) names *)
+Definition cgem_tree_ok (t : fac * option form * form * bool * form) : Prop :=
+  let '(f, fm, cfm, digi, final) := t in
+  match f with FacCgem _ => fm = None /\ cfm = cg_form true /\ final = cg_form true | _ => True end.
+Theorem C18_fixture_cgem_content_form : Forall cgem_tree_ok trees.
+Proof. repeat (constructor; [vm_compute; first [exact I | repeat split; reflexivity]|]). constructor. Qed.
+Print Assumptions C18_fixture_cgem_content_form.
 
 (* ---------------------------------------------------------------- non-vacuity *)
 Example C18_ex_content :
